@@ -503,4 +503,7 @@ func rulesC13(e *Engine, r *Report) {
 				"the route does not decode with the separator announced by the sender", 1)
 		}
 	}
+	// ---------------------------------------------------------------- R13.10
+	r.Rule("R13.10", "a body that ends early is an error, not a wait: every io.Pipe() of the module has its writing end closed, on every path, by the goroutine that feeds it (the header decoder, the request bodies and the JSON reader all read from such pipes; three of the four feeders always closed, the one behind the payload header did not - a header longer than X-STS-MetaLen, or a connection cut inside the header, left the request handler waiting for ever)")
+	e.checkPipeWritersClosed(r, "R13.10", 4)
 }
